@@ -44,19 +44,20 @@ SeqVariants(kind) ==
 PairVariants(n, acct, acct2) ==
   { <<Some(R(n, "plain")), Some(acct)>>, <<Some(R(n, "t0")), Some(acct)>>, <<Some(R(n, "plain")), Some(acct2)>>,
     <<Some(R(1000, "plain")), Some(acct)>>, <<Some(R(0, "bad_empty")), Some("")>>,
+    <<Some(Dec(n * 100 + 4, "plain")), Some(acct)>>,
     <<Some(R(n, "plain")), NoStr>>, <<NoDec, Some(acct)>>, <<Some(R(0, "bad_word")), Some(acct)>>,
     <<Some(R(n, "plain")), Some("BAD")>>, <<Some(R(n, "plain")), Some("")>>, <<Some(R(0, "bad_empty")), Some(acct)>> }
 AskPairs == IF Tier = "quick"
             THEN {<<Some(R(5000, "t0")), Some("askfee2")>>, <<Some(R(1000, "plain")), Some("askfee1")>>,
                   <<Some(R(5000, "t0")), Some("")>>, <<Some(R(2500, "plain")), Some("askfee1")>>,
-                  <<Some(Dec(500090, "plain")), Some("askfee1")>>,        \* 0.50009: differs from 0.5 in the fifth decimal
+                  <<Some(Dec(500004, "plain")), Some("askfee1")>>,        \* 0.500004: differs from 0.5 in the sixth decimal only
                   <<Some(R(0, "bad_empty")), Some("")>>, <<Some(R(5000, "plain")), NoStr>>, <<NoDec, Some("askfee1")>>,
                   <<Some(R(0, "bad_word")), Some("askfee1")>>, <<Some(R(5000, "plain")), Some("BAD")>>}
             ELSE PairVariants(5000, "askfee1", "askfee2")
 BidPairs == IF Tier = "quick"
             THEN {<<Some(R(2500, "t0")), Some("bidfee2")>>, <<Some(R(0, "bad_empty")), Some("")>>,
                   <<Some(R(1000, "plain")), Some("bidfee1")>>, <<Some(R(5000, "plain")), Some("bidfee1")>>,
-                  <<Some(R(2500, "plain")), Some("")>>, <<Some(Dec(250009, "plain")), Some("bidfee1")>>}
+                  <<Some(R(2500, "plain")), Some("")>>, <<Some(Dec(250004, "plain")), Some("bidfee1")>>}
             ELSE PairVariants(2500, "bidfee1", "bidfee2")
 
 ModifyReqs ==
